@@ -21,6 +21,7 @@ from photon_weave.operation import (
 )
 from photon_weave.photon_weave import Config
 from photon_weave.state.expansion_levels import ExpansionLevel
+from photon_weave._verif import announce as _verif_announce
 
 # For static type checks
 if TYPE_CHECKING:
@@ -181,6 +182,7 @@ class ProductState:
                 probabilities /= jnp.sum(probabilities)
 
                 # Decide on output
+                _verif_announce("measure", state)
                 key = C.random_key
                 outcomes[state] = int(
                     jax.random.choice(
@@ -235,6 +237,7 @@ class ProductState:
                 probabilities /= sum(probabilities)
 
                 # Decide on outcome
+                _verif_announce("measure", state)
                 key = C.random_key
                 outcomes[state] = int(
                     jax.random.choice(
@@ -358,6 +361,7 @@ class ProductState:
 
         # Decide on the outcomes
         C = Config()
+        _verif_announce("povm", *states)
         key = C.random_key
         outcome = int(
             jax.random.choice(
